@@ -1,4 +1,5 @@
 /- The fact values the C13 theorems are proved for (and the oracle runs with). -/
 namespace EinoV.Expected.C13
 def internalErrorHasUnwrap : Bool := true
+def failedTaskReportedAsIs : Bool := true
 end EinoV.Expected.C13
